@@ -973,14 +973,15 @@ def judge_chain(run, d, m, cfg, ev, r):
         run.probe('chain-with-common-field-variables')
     # (3) everything else is cleared (plain CHAIN only for FN and DEFtype, see ASSUMPTIONS)
     probe_stacks_and_trap(run, d, 'chain:' + opts)
+    # (probes that create no variable: after a CHAIN in a full memory an assignment would end in Out of memory)
     if not ch['all']:
-        rr = d.exec(b'Z9=FNA(1)')
+        rr = d.exec(b'PRINT FNA(1)')
         if rr.err != 18:
-            run.violate('C23', 'chain:%s:def-fn-survives' % opts, 'Z9=FNA(1) after CHAIN -> %r\n%s' % (rr, _ctx(cfg)))
+            run.violate('C23', 'chain:%s:def-fn-survives' % opts, 'PRINT FNA(1) after CHAIN -> %r\n%s' % (rr, _ctx(cfg)))
     if cfg['deftype'] and not ch['merge']:
-        rr = d.exec(b'S9="a"')
+        rr = d.exec(b'PRINT LEN(S9)')
         if rr.err != 13:
-            run.violate('C23', 'chain:%s:deftype-survives' % opts, 'S9="a" after CHAIN -> %r\n%s' % (rr, _ctx(cfg)))
+            run.violate('C23', 'chain:%s:deftype-survives' % opts, 'PRINT LEN(S9) after CHAIN -> %r\n%s' % (rr, _ctx(cfg)))
     # the values must also survive a collection and later allocations in the chained state
     d.exec(b'Z8$=STRING$(40,"z")+"y":Z9=FRE("")')
     diffs = readback(d, exp, SCALARS, ARRAYS + [FILL])
